@@ -93,6 +93,14 @@ class Inconclusive(Exception):
     pass
 
 
+def skipped(res, msg: str) -> None:
+    """a bounded wait ran out in one daemon case (a loaded machine, a port race): the case is not judged and is counted.  The
+    class every daemon level must reach (REQUIRED_CLASSES 'daemon:...') decides whether enough cases were judged; a daemon which
+    cannot start at all therefore still ends INCONCLUSIVE, never HELD"""
+    res.count('daemon-case-not-judged')
+    res.extra.setdefault('daemon_cases_not_judged', []).append(msg[:300])
+
+
 class Daemon:
     def __init__(self, conf_text: str, env: dict | None = None, files: dict | None = None) -> None:
         self.dir = tempfile.mkdtemp(prefix='exaverif-daemon-', dir='/var/tmp')
@@ -136,7 +144,7 @@ class Daemon:
         self.stderr = open(self.path('stderr'), 'w')
         self.proc = subprocess.Popen([PY, '-m', 'exabgp', 'server', self.path('conf')], env=self.env, stdout=self.stderr, stderr=self.stderr, cwd=self.dir, start_new_session=True)
 
-    def accept(self, timeout: float = 30.0) -> 'Peer':
+    def accept(self, timeout: float = 60.0) -> 'Peer':
         self.listener.settimeout(timeout)
         try:
             conn, _ = self.listener.accept()
@@ -219,11 +227,11 @@ class Peer:
 
     def __init__(self, conn: socket.socket) -> None:
         self.conn = conn
-        self.conn.settimeout(20.0)
+        self.conn.settimeout(40.0)
         self.buf = b''
         self.rx = []  # (type, body)
 
-    def read_message(self, timeout: float = 20.0):
+    def read_message(self, timeout: float = 40.0):
         self.conn.settimeout(timeout)
         try:
             while True:
